@@ -191,6 +191,8 @@ func genBlocks(t *rapid.T) []types.BlockID {
 		{Hash: h1, PartsHeader: types.PartSetHeader{}},                                                  // hash only
 		{Hash: common.Hash{}, PartsHeader: types.PartSetHeader{Total: 3, Hash: ph1}},                    // parts only
 		{Hash: h1, PartsHeader: types.PartSetHeader{Total: 3, Hash: append(ph1[:31:31], ph1[31]^0xff)}}, // last byte of parts hash
+		{Hash: h1, PartsHeader: types.PartSetHeader{Total: -1, Hash: ph1}},                              // hostile totals
+		{Hash: h1, PartsHeader: types.PartSetHeader{Total: 1 << 40, Hash: ph1}},
 	}
 }
 
@@ -454,10 +456,17 @@ func (w *world) emit(t *rapid.T, i int, kind string) []*mvote {
 		s := w.on(B)
 		c := B
 		o := rapid.SampledFrom(append([]int{0}, seq(2, len(w.blocks)-1)...)).Draw(t, "ob")
-		if rapid.Bool().Draw(t, "reverse") {
-			c.Bid = o
-		} else {
+		switch rapid.IntRange(0, 2).Draw(t, "pair") {
+		case 0: // signed for another block, claims B
 			s.Bid = o
+		case 1: // signed for B, claims another block
+			c.Bid = o
+		default: // any two different block ids of the pool
+			c.Bid = o
+			s.Bid = rapid.IntRange(0, len(w.blocks)-2).Draw(t, "sb")
+			if s.Bid >= o {
+				s.Bid++
+			}
 		}
 		defective(w.mk(i, kind, i, w.addr(i), i, w.n, c, s, i, sigNormal))
 	case "badSig":
@@ -660,16 +669,19 @@ func (w *world) checkCommit(t vstat.TB, tag, chain string, X int, h uint64, slot
 		return false, tally
 	}
 	if err == nil {
-		// the property's direction, in the property's words
-		r := 0
+		// the property's direction, in the property's words: SOME common round carries > 2/3
+		best := new(big.Int)
+		seen := map[int]bool{}
 		for _, m := range slots {
-			if m != nil {
-				r = m.claim.R
-				break
+			if m != nil && !seen[m.claim.R] {
+				seen[m.claim.R] = true
+				if pt := w.propertyTally(chain, X, h, m.claim.R, slots); pt.Cmp(best) > 0 {
+					best = pt
+				}
 			}
 		}
-		if pt := w.propertyTally(chain, X, h, r, slots); !moreThanTwoThirds(pt, w.total) {
-			vstat.Violation(t, P, "verifycommit:accepts-without-two-thirds", "VerifyCommit accepted, but correctly signed precommits for exactly that block hold %v of %v ; %s", pt, w.total, desc())
+		if !moreThanTwoThirds(best, w.total) {
+			vstat.Violation(t, P, "verifycommit:accepts-without-two-thirds", "VerifyCommit accepted, but correctly signed precommits for exactly that block (one round) hold %v of %v ; %s", best, w.total, desc())
 			return true, tally
 		}
 	}
@@ -1287,7 +1299,7 @@ func runMultiSignCase(t *rapid.T) {
 		s, _ := w.key(signer).Sign(m)
 		return s.Bytes() // what FilePV.SignData / MultiSignAccountTx.Sign put on the wire
 	}
-	honesty := rapid.SampledFrom([]int{40, 55, 67, 75, 85, 95}).Draw(t, "honesty")
+	honesty := rapid.SampledFrom([]int{30, 45, 55, 67, 75, 85, 95}).Draw(t, "honesty")
 	var entries []msEntry
 	var kinds []string
 	for i := 0; i < w.n; i++ {
@@ -1494,9 +1506,10 @@ func TestBoundaryEnumeration(t *testing.T) {
 			}
 			tally := w.powerOf(in)
 			want := moreThanTwoThirds(tally, w.total)
-			if got, _ := w.checkCommit(t, "enum", w.chain, 1, w.H, slots); got != want {
-				t.Fatalf("harness: reference disagrees with itself: powers %v mask %b", powers, mask)
+			if ref, _, _ := w.refVerifyCommit(w.chain, 1, w.H, slots); ref != want {
+				t.Fatalf("harness: the two references disagree: powers %v mask %b", powers, mask)
 			}
+			w.checkCommit(t, "enum", w.chain, 1, w.H, slots)
 			var ops []op
 			for i := range pool {
 				ops = append(ops, op{vote: i})
